@@ -46,9 +46,17 @@ def _ensure():
 
 
 def verdict(layer, eps):
+  """Eager, or - for a share of the cases - from a freshly traced tf.function per call (the assertion ops are stateful
+  and run with the function; the same layer is asserted from several separately traced functions, with its weights
+  changed in between, as a training loop with periodic checks does)."""
   tf = _state["tf"]
   try:
-    layer.assert_constraints(eps)
+    if _state.get("exec") == "graph":
+      def traced():
+        layer.assert_constraints(eps)       # returns assertion ops, which are not function outputs
+      tf.function(traced)()
+    else:
+      layer.assert_constraints(eps)
     return "accept"
   except tf.errors.InvalidArgumentError:
     return "reject"
@@ -60,7 +68,8 @@ def gen_cases(ctx):
   rng = ctx.rng
   kinds = ["lattice", "lattice", "pwl", "linear", "categorical", "kfl", "rtl"]
   for i in range(ctx.n):
-    yield {"kind": kinds[(i + ctx.shard) % len(kinds)], "eps": float(rng.choice([1e-6, 1e-4, 1e-3])), "seed": int(rng.randint(2**31 - 1))}
+    yield {"kind": kinds[(i + ctx.shard) % len(kinds)], "eps": float(rng.choice([1e-6, 1e-4, 1e-3])), "seed": int(rng.randint(2**31 - 1)),
+           "exec": "graph" if rng.rand() < .3 else "eager"}
 
 
 def _expect(ctx, site, got, want, what, info=None):
@@ -535,5 +544,6 @@ def run_case(ctx, case):
   st = _ensure()
   rng = np.random.RandomState(case["seed"])
   fn = {"lattice": _run_lattice, "rtl": _run_rtl, "pwl": _run_pwl, "linear": _run_linear, "categorical": _run_categorical, "kfl": _run_kfl}[case["kind"]]
-  ctx.cls("kind:" + case["kind"], "eps:%g" % case["eps"])
+  _state["exec"] = case.get("exec", "eager")
+  ctx.cls("kind:" + case["kind"], "eps:%g" % case["eps"], "exec:" + _state["exec"])
   return fn(ctx, case, st, rng)
